@@ -166,6 +166,14 @@ def sym_legacy(inp, part):
     for nd in nodes.values():
         if nd.sleeping:
             raise Reject  # the legacy layout has no sleeping flag
+    nulls = inp.bool("legacy_nulls")
+    if nulls:
+        # pymysensors writes null for a gateway's type and for unset sketch fields: the native equivalent is
+        # node type 18 (gateway) and empty strings
+        for nd in nodes.values():
+            nd.node_type = 18
+            nd.sketch_name = ""
+            nd.sketch_version = ""
     sym = bool(getattr(inp, "symbolic", False))
     fs = FS({})
     try:
@@ -173,6 +181,11 @@ def sym_legacy(inp, part):
         native = fs.files[PATH]
         doc = native.value if isinstance(native, Token) else real_json.loads(native)
         legacy = _to_legacy(doc)
+        if nulls:
+            for rec in legacy.values():
+                rec["type"] = None
+                rec["sketch_name"] = None
+                rec["sketch_version"] = None
         fs2 = FS({PATH: Token(legacy) if sym else real_json.dumps(legacy)})
         r1 = load_into(fs, sym)
         r2 = load_into(fs2, sym)
